@@ -1,7 +1,7 @@
 (* C07 - State lives as long as it matters and is then actually reclaimed. *)
 From Coq Require Import ZArith Bool List.
 Import ListNotations.
-Require Import TC.Generated.Consts TC.Base.Map TC.Store.Stores TC.Store.Reclaim
+Require Import TC.Generated.Consts TC.Base.Map TC.Store.Stores TC.Store.Reclaim TC.Store.Bounded
   TC.Limiter.Arith TC.Limiter.KeyStep TC.Limiter.KeyLemmas TC.Limiter.Fields.
 Open Scope Z_scope.
 
@@ -114,3 +114,61 @@ Theorem C07_probabilistic_sweep :
   Forall (fun e => now < expiry_of K e) (b_data K (b_maybe_clean K s now)).
 Proof. exact probabilistic_sweeps_when_fires. Qed.
 Print Assumptions C07_probabilistic_sweep.
+
+(* ---------------- bounded size (cardinality) ---------------- *)
+(* the table of any built-in store is a map whose entries each stem from a write of the history; such a
+   table, when all its entries expire from [lo] on, has at most as many entries as there are DISTINCT keys
+   written with an expiry >= lo *)
+Theorem C07_entries_bounded_by_live_keys :
+  forall (K : Type) (keqb : K -> K -> bool), (forall a b, reflect (a = b) (keqb a b)) ->
+  forall (ops : list (bool * sop K)) (d : data K) (lo : Z),
+  prov K ops d -> all_expire_from K lo d -> (length d <= length (dedup K keqb (live_writes K lo ops)))%nat.
+Proof. exact entries_bounded_by_live_keys. Qed.
+Print Assumptions C07_entries_bounded_by_live_keys.
+
+(* PeriodicStore: after ANY history ending with a write at t, the number of physical entries is at most the
+   number of distinct keys written with a lifetime reaching t - cleanup_interval or later: memory follows the
+   live keys, not the keys ever seen *)
+Theorem C07_periodic_bounded :
+  forall (K : Type) (keqb : K -> K -> bool), (forall a b, reflect (a = b) (keqb a b)) ->
+  forall (t_build interval : Z) (pre : list (bool * sop K)) (orc : bool) (o : sop K),
+  0 <= interval -> nondec t_build (ops_times K (pre ++ [(orc, o)])) -> ops_ttl_ok K (pre ++ [(orc, o)]) ->
+  is_write o = true ->
+  (length (sdata K (fst (srun K keqb (periodic_new t_build interval) (pre ++ [(orc, o)])))) <=
+   length (dedup K keqb (live_writes K (op_time o - interval) (pre ++ [(orc, o)]))))%nat.
+Proof. exact periodic_bounded. Qed.
+Print Assumptions C07_periodic_bounded.
+
+(* AdaptiveStore, every oracle stream: window max(5 s, min_interval, max_interval) *)
+Theorem C07_adaptive_bounded :
+  forall (K : Type) (keqb : K -> K -> bool), (forall a b, reflect (a = b) (keqb a b)) ->
+  forall (t_build mn mx mo : Z) (pre : list (bool * sop K)) (orc : bool) (o : sop K),
+  0 <= mn -> 0 <= mx -> nondec t_build (ops_times K (pre ++ [(orc, o)])) -> ops_ttl_ok K (pre ++ [(orc, o)]) ->
+  is_write o = true ->
+  let W := Z.max (ADAPTIVE_DEFAULT_CLEANUP_INTERVAL_SECS * 1000000000) (Z.max mn mx) in
+  (length (sdata K (fst (srun K keqb (adaptive_new t_build mn mx mo) (pre ++ [(orc, o)])))) <=
+   length (dedup K keqb (live_writes K (op_time o - W) (pre ++ [(orc, o)]))))%nat.
+Proof. exact adaptive_bounded. Qed.
+Print Assumptions C07_adaptive_bounded.
+
+(* ProbabilisticStore (any store): right after a sweep at [now] at most the distinct keys written with a lifetime
+   ending after [now] remain; between sweeps the table grows by at most one entry per write, and
+   C07_probabilistic_gap bounds the number of writes between two sweeps by cleanup_probability *)
+Theorem C07_swept_bounded :
+  forall (K : Type) (keqb : K -> K -> bool), (forall a b, reflect (a = b) (keqb a b)) ->
+  forall (ops : list (bool * sop K)) (d : data K) (now : Z),
+  prov K ops d -> (length (retain K d now) <= length (dedup K keqb (live_writes K (now + 1) ops)))%nat.
+Proof. exact swept_bounded. Qed.
+Print Assumptions C07_swept_bounded.
+Theorem C07_step_grows_by_one :
+  forall (K : Type) (keqb : K -> K -> bool) (s : store K) (orc : bool) (o : sop K),
+  (length (sdata K (fst (sstep K keqb s orc o))) <= S (length (sdata K s)))%nat.
+Proof. exact step_grows_by_one. Qed.
+Print Assumptions C07_step_grows_by_one.
+(* every reachable table satisfies the premise [prov] *)
+Theorem C07_tables_stem_from_writes :
+  forall (K : Type) (keqb : K -> K -> bool), (forall a b, reflect (a = b) (keqb a b)) ->
+  forall (ops pre : list (bool * sop K)) (s : store K),
+  prov K pre (sdata K s) -> prov K (pre ++ ops) (sdata K (fst (srun K keqb s ops))).
+Proof. exact prov_run. Qed.
+Print Assumptions C07_tables_stem_from_writes.
